@@ -492,9 +492,11 @@ impl<'a, 'c> Enc<'a, 'c> {
     }
 
     fn rand_string(&mut self, max: u64) -> Vec<u8> {
-        let n = match self.rng.below(6) {
-            0 => 0,
-            1 => 1,
+        let n = match self.rng.below(48) {
+            0..=7 => 0,
+            8..=15 => 1,
+            // the longest string the readers accept
+            16 if max >= 12 && !self.over_budget() => 255,
             _ => self.rng.below(max + 1),
         };
         let mut v = Vec::new();
@@ -775,11 +777,22 @@ impl<'a, 'c> Enc<'a, 'c> {
                 self.rec(off, FKind::Guid, &name);
             }
             "PackedGuid" => {
-                let v = match self.rng.below(4) {
+                let v = match self.rng.below(6) {
                     0 => 0,
                     1 => self.rng.below(256),
                     2 => self.rng.next_u64(),
-                    _ => self.rng.next_u64() & 0x00FF_00FF_FF00_00FF,
+                    3 => self.rng.next_u64() & 0x00FF_00FF_FF00_00FF,
+                    _ => {
+                        // every pattern of zero / non-zero bytes (e.g. a zero byte in the middle and a non-zero top byte)
+                        let keep = self.rng.below(256);
+                        let mut v = self.rng.next_u64() | 0x0101_0101_0101_0101;
+                        for b in 0..8 {
+                            if keep & (1 << b) == 0 {
+                                v &= !(0xFFu64 << (8 * b));
+                            }
+                        }
+                        v
+                    }
                 };
                 self.packed_guid(v);
                 self.rec(off, FKind::PackedGuid, &name);
